@@ -14,6 +14,9 @@ func propC16(c *Ctx, r *Report) {
 		"the namer's sanitising / uniquifying algorithm itself, scope resolution of references, case-insensitive clashes between two user names, non-ASCII escapes, the reported entry-point name mapping")
 	c.runKeywordTables(r, keywordTables)
 	c.runHelperReservation(r, helperSpecs)
+	r.Clauses = append(r.Clauses, "checked = emitted (E11): in every string-returning function that tests a spelling with a reserved-word predicate, the tested variable is the one returned or adjusted in the guarded branch (not the raw input of a sanitiser)")
+	c.runCheckedEmitted(r, "names.checked-emitted", inPkgs("hlsl", "msl", "glsl", "internal/backend"))
+	r.floor("namecheck.sites", 4)
 	r.floor("tables.keywords.GLSL", 200)
 	r.floor("tables.keywords.MSL", 150)
 	r.floor("tables.keywords.HLSL", 200)
